@@ -4,6 +4,7 @@
 extern crate iceoryx2_bb_loggers;
 
 mod c03;
+mod c05;
 mod c09;
 mod c10;
 mod c12;
@@ -15,6 +16,7 @@ fn main() {
     let report = match args.sub.as_str() {
         "c09" => c09::run(&args),
         "c03" => c03::run(&args),
+        "c05" => c05::run(&args),
         "c10" => c10::run(&args),
         "c12" => c12::run(&args),
         "warmup" => return,
